@@ -129,3 +129,19 @@ Example C08_merge_scenario :
   last_trace (init C08m_example.c0) C08m_example.prog = [1; 2; 3; 3; 4] /\
   lost_log (run_m C08m_example.c0 C08m_example.prog) = false.
 Proof. vm_compute. repeat split; reflexivity. Qed.
+
+From Coq Require Import String List NArith.
+From KV Require RetentionFactsOk.
+From KV.gen Require RetentionFacts.
+Import ListNotations.
+
+(* log retention (a replication primary retires closed log files once every replica has
+   acknowledged them): the rule the model uses is the one the code spells (regenerated from
+   pkg/wal/retention.go on every run), and under it a file whose highest number is not below the
+   acknowledged one is kept - the highest number handed out stays on disk until a newer file
+   holds an entry, so the counter does not fall back over a restart *)
+Theorem C08_retention_keeps_highest_number :
+  RetentionFacts.retention_delete_tests = [("fi.MaxSeq", "<", "config.MinSequenceKeep")]%string /\
+  (forall acked f, (acked <= Engine.file_max f)%N -> Engine.retention_keeps acked f = true).
+Proof. exact (conj RetentionFactsOk.retention_rule_is_the_codes RetentionFactsOk.retention_keeps_above). Qed.
+Print Assumptions C08_retention_keeps_highest_number.
